@@ -12,6 +12,40 @@ TEXT = {
     design_ref="4/C17"),
 }
 
+TRACE_TECH = "recorded traces of the real library validated event by event against the TLA+ spec (HMSTrace.tla re-using HMS.tla) by TLC; "
+TRACE_NOTE = ("Trusted: TLC; the recorder (pass-through wrappers around objective / stop conditions / sprout mechanism, public API only) and its atoms "
+              "(inbox, truth, centroid-is-mean, far) computed by the harness; deterministic corpus objectives. Covers the runs of the corpus "
+              "(randomized engine matrix + repository test configurations + TLC-generated scenario scripts), not all runs.")
+def _t(text, tech, ref, note=TRACE_NOTE):
+    return dict(text=text, technique=tech, design_ref=ref, note=note)
+
+TEXT.update({
+ "C01": _t("Every objective call, every individual of every recorded generation, every sprout seed of every run of the corpus carries the harness-computed atom inbox; clauses C01_EvalInBox / C01_StoredInBox / C01_SeedInBox are evaluated by TLC on every event of every trace. Corpus spans all engines, 6 box classes (incl. (-0.1,0.2), 1e-9, 1e9), dims 2-4.",
+           TRACE_TECH + "clauses C01_*", "4/C01"),
+ "C02": _t("TLC evaluates C02_TrueFitness (stored fitness = pure re-evaluation of the stored genome, or the cutoff sentinel after a refusal) on every recorded generation, best individual and seed, and C02_HistoryAppendOnly (digest of the first n generations at a later snapshot = digest recorded when there were n) between all consecutive boundary snapshots.",
+           TRACE_TECH + "clauses C02_*", "4/C02"),
+ "C03": _t("HMS.tla advances its per-deme evaluation counters with the recorder's ground-truth call batches; at every stop-condition consult TLC compares them with the counters the tree reports (per deme, per level against one recorder stream per level, tree total = sum), guarded by 'no refusal yet'. Design model: total = sum over levels in every state.",
+           "TLC design model (HMSModel.tla) + " + TRACE_TECH + "clauses C03_*", "4/C03"),
+ "C04": _t("At every boundary snapshot TLC checks that the reported tree / deme best has the minimum goodness rank of all generations logged so far and is one of them, that it never gets worse, and (no local level, no refusal) equals the best rank the recorder ever returned.",
+           TRACE_TECH + "clauses C04_*", "4/C04"),
+ "C05": _t("Design model: TLC explores every position at which a scripted or shipped global stop condition can first turn true (after any generation of any deme, post-metaepoch, loop head) and checks done=>gsc, counter = metaepochs performed (exactly n / 0), no sprout after gsc, wind-down <= 1 iteration per deme. Every maximal corner is replayed on the real code by TLC-generated scripts; every recorded run is validated against the same operators, shipped conditions' verdicts are recomputed by the spec.",
+           "TLC design model (HMSModel.tla, exhaustive for small constants) + TLC-generated scenario scripts replayed on pyhms + " + TRACE_TECH + "clauses C05_*", "4/C05"),
+ "C06": _t("Design model invariants / action properties (stepped exactly once, newborn runs next metaepoch, stop causes, inactive frozen) over all scripted LSC firings; traces: the model predicts active flag, metaepoch and generation counts of every deme at every consult from the verdicts and call batches, TLC compares with the projection of the real tree (shipped LSC verdicts recomputed by the spec).",
+           "TLC design model + scenario scripts + " + TRACE_TECH + "clauses C06_*", "4/C06"),
+ "C07": _t("C07_Structure / C07_IdLaw are invariants of the design model and are evaluated by TLC on the projection of the real tree at every consult; seeds: C07_SeedFromParentPopulation, C07_SeedInInitialPopulation on every round / new deme.",
+           "TLC design model + " + TRACE_TECH + "clauses C07_*", "4/C07"),
+ "C08": _t("C08_ActiveWithinLimit is an invariant of every state of the design model (slots freed by LSCs at arbitrary times, several parents, offers above the free slots) and is evaluated on the census of the real tree at every consult (after every generation); C08_RoundWithinFreeSlots on every round.",
+           "TLC design model + scenario scripts + " + TRACE_TECH + "clauses C08_*", "4/C08"),
+ "C09": _t("C09_CentroidCurrent at every boundary for every deme (reported centroid vs mean of the current population, harness atom); C09_FarFromConsidered for every seed returned by FarEnough / NBC_FarEnough mechanisms against recomputed centroids of the considered demes.",
+           TRACE_TECH + "clauses C09_*", "4/C09"),
+ "C11": _t("For all consecutive generation pairs of every population-engine deme TLC checks: each individual (genome id, rank) was in the preceding generation or its genome was evaluated in the iteration that produced the generation (iteration call sets delimited by the deme's own consults).",
+           TRACE_TECH + "clause C11_BredFromPredecessor", "4/C11"),
+ "C12": _t("For all consecutive generation pairs: best rank not worse (SEA family with elites, DE, SHADE), sorted rank vector componentwise not worse (DE, SHADE), generation size = configured population size (CMA: constant lambda).",
+           TRACE_TECH + "clauses C12_*", "4/C12"),
+ "C18": _t("Design model with 3 levels: hib flag <=> no sprout in the last round the deme took part in, newborn awake, asleep means frozen, off means never; progress clause per metaepoch. Traces: flags predicted by the model from the observed rounds and compared at every consult. The two idle-metaepoch shapes of known_findings.json are reported as KNOWN-FINDING; any other idle metaepoch is a violation.",
+           "TLC design model (incl. reachability witness of the stall) + scenario scripts + " + TRACE_TECH + "clauses C18_*", "4/C18"),
+})
+
 NOT_YET = "check not built yet in this round (see DESIGN.md section 4); no claim is made"
 
 
